@@ -76,3 +76,6 @@ Proof. vm_compute. repeat split. Qed.
    empty id stays inside the root) *)
 Theorem C04_code_path_of_entry : path_of_entry_wf path_of_entry = true.
 Proof. exact path_of_entry_as_specified. Qed.
+
+Theorem C04_code_parent_id : parent_id_wf DirEntry_parent_id = true.
+Proof. exact parent_id_as_modelled. Qed.
